@@ -12,3 +12,5 @@ def run(rep, tier, seed, replay=None):
     if replay is None:
         from props.families import quake
         quake.finding_probes(rep)
+        import random
+        quake.name_probes(rep, random.Random(seed + 5), tier)
